@@ -77,7 +77,9 @@ def _prune(keep):
     ents = [e for e in ents if os.path.isdir(e) and not os.path.basename(e).startswith("tmp")]
     ents.sort(key=lambda e: os.path.getmtime(e), reverse=True)
     for e in ents[keep:]:
-        shutil.rmtree(e, ignore_errors=True)
+        # never remove something a concurrent check may be executing
+        if time.time() - os.path.getmtime(e) > 1800:
+            shutil.rmtree(e, ignore_errors=True)
     # stale temp dirs (older than 1h)
     for d in os.listdir(BUILD_ROOT):
         p = os.path.join(BUILD_ROOT, d)
@@ -146,7 +148,7 @@ def build(variant):
         except OSError:
             # somebody else won the race
             shutil.rmtree(tmp, ignore_errors=True)
-        _prune(40)
+        _prune(60)
         return exe
     except BaseException:
         shutil.rmtree(tmp, ignore_errors=True)
